@@ -21,7 +21,7 @@ PROP = {
                   "trim_text / event splitting (modelled); fancy_regex on the is_address regex (hand matcher, tied behaviourally through the dnr lines); the harness dump "
                   "functions (annot_entries) and the zip crate. The *_unfixed_*_fails refutations concern a model of the code BEFORE the fixes, which no longer runs; it was "
                   "checked against the unfixed tree by the harness witnesses only while the fixes were being developed.",
-    "expect_theorems": ["C06_sheet_list", "C06_merge_roundtrip", "C06_comment_authors", "C06_comment_authors_unfixed_fails", "C06_hyperlink_reload",
+    "expect_theorems": ["C06_channels_match_source", "C06_sheet_list", "C06_merge_roundtrip", "C06_comment_authors", "C06_comment_authors_unfixed_fails", "C06_hyperlink_reload",
                         "C06_hyperlink_pairing", "C06_undouble_double", "C06_defined_name_roundtrip", "C06_defined_name_text_kept", "C06_defined_name_channel"],
     "rule": "case = one workbook: 8 fixed witnesses (the repaired defects + the residual ones), N workbooks generated from a per-case seed by wb::gen_book with rich "
             "annotations (1-6 sheets, 0..40 hyperlinks with tooltips / location links to quoted sheets, 0..30 comments over a pool of authors incl. the empty one, 0..36 merges, "
